@@ -90,6 +90,10 @@ func c02Constrain(t *rapid.T, p *corev1.Pod, l string) {
 			md := int32(rapid.IntRange(2, 3).Draw(t, l+"_minDomainsV"))
 			tsc.MinDomains = &md
 		}
+		if tsc.LabelSelector != nil && dpct(t, 15, l+"_matchLabelKeys") {
+			// per-deployment spreading through matchLabelKeys (every generated pod carries a "dep" label)
+			tsc.MatchLabelKeys = []string{"dep"}
+		}
 		switch rapid.IntRange(0, 7).Draw(t, l+"_policies") {
 		case 6:
 			pol := corev1.NodeInclusionPolicyIgnore
@@ -388,7 +392,8 @@ func podAdmitsDomain(p *corev1.Pod, key, value string) bool {
 	return ref.MatchesNodeAffinity(probe, &corev1.Node{ObjectMeta: metav1.ObjectMeta{Labels: map[string]string{key: value}}})
 }
 
-// orTermsOn: the pod's required node affinity has several OR-ed terms, at least one of which constrains the key.
+// orTermsOn: the pod's required node affinity has several OR-ed terms, at least one of which constrains the key
+// (any key when key is empty).
 func orTermsOn(p *corev1.Pod, key string) bool {
 	if p.Spec.Affinity == nil || p.Spec.Affinity.NodeAffinity == nil || p.Spec.Affinity.NodeAffinity.RequiredDuringSchedulingIgnoredDuringExecution == nil {
 		return false
@@ -396,6 +401,9 @@ func orTermsOn(p *corev1.Pod, key string) bool {
 	terms := p.Spec.Affinity.NodeAffinity.RequiredDuringSchedulingIgnoredDuringExecution.NodeSelectorTerms
 	if len(terms) < 2 {
 		return false
+	}
+	if key == "" {
+		return true
 	}
 	for _, term := range terms {
 		for _, e := range term.MatchExpressions {
@@ -725,6 +733,16 @@ func execC02(s *c02Scenario, c *ev.Ctx) {
 				continue
 			}
 			key := tsc.TopologyKey
+			// matchLabelKeys: the selector is AND-ed with key In [the incoming pod's value] for every listed key the pod carries
+			if len(tsc.MatchLabelKeys) > 0 {
+				tsc.LabelSelector = tsc.LabelSelector.DeepCopy()
+				for _, k := range tsc.MatchLabelKeys {
+					if v, ok := p.pod.Labels[k]; ok {
+						tsc.LabelSelector.MatchExpressions = append(tsc.LabelSelector.MatchExpressions, metav1.LabelSelectorRequirement{Key: k, Operator: metav1.LabelSelectorOpIn, Values: []string{v}})
+					}
+				}
+				c.Class("spread_with_match_label_keys")
+			}
 			governedPlaced[constraintID("spread", key, tsc.LabelSelector)]++
 			if !c02Matches(tsc.LabelSelector, p.pod.Namespace, p.pod) {
 				c.Class("spread_not_self_matching")
@@ -884,9 +902,11 @@ func execC02(s *c02Scenario, c *ev.Ctx) {
 			}
 			if skew := count[d] - upperMin; skew > int(tsc.MaxSkew) {
 				sig := "spread:" + shortKey(key) + ":max-skew-exceeded"
-				if orTermsOn(p.pod, key) && honorAffinity {
+				if orTermsOn(p.pod, "") && honorAffinity {
 					// Karpenter computes the spread minimum over the domains of the one OR-ed node-affinity term it is
-					// trying, kube-scheduler over the nodes that match any of them
+					// trying, kube-scheduler over the nodes that match any of them; and when relaxation drops a term
+					// (whatever key it is about) the node filter changes, the spread group is re-created under a new hash
+					// and has forgotten the replicas placed earlier in the pass
 					sig = "node-affinity-or-terms:judged-by-one-term:spread"
 				}
 				if honorTaints && softTaintPool && relaxedToleration[s.Deploy[p.pod.Name]] {
